@@ -30,6 +30,8 @@ type E9 struct {
 	info *types.Info
 	// Atom names an expression as an atom (after local-definition resolution fails). "" = unknown.
 	Atom func(e ast.Expr, text string) string
+	// AtomCmp optionally names a comparison / negation as a boolean atom (text without spaces).
+	AtomCmp func(e ast.Expr, text string) string
 	// locals resolved through their single definition
 	depth int
 	// bindings for inlined callee parameters / receiver
@@ -125,9 +127,25 @@ func (x *E9) atomVal(e ast.Expr, env map[string]int64) (e9Val, error) {
 func (x *E9) eval(e ast.Expr, env map[string]int64) (e9Val, error) {
 	info := x.info
 	e = unparen(e)
-	// rule-named atoms take precedence over constants and structural evaluation
-	if name := x.Atom(e, exprString(e)); name != "" {
-		return x.atomVal(e, env)
+	// rule-named atoms take precedence over constants and structural evaluation. Compound
+	// expressions (operators) are never atoms of the general table — a textual suffix match on
+	// `a && x.MaxTime` must not swallow the whole expression; a rule that wants to name a
+	// comparison uses AtomCmp.
+	switch e.(type) {
+	case *ast.BinaryExpr, *ast.UnaryExpr:
+		if x.AtomCmp != nil {
+			if name := x.AtomCmp(e, strings.ReplaceAll(exprString(e), " ", "")); name != "" {
+				v, ok := env[name]
+				if !ok {
+					return e9Val{}, x.failf(e.Pos(), "atom %q not in the enumerated set", name)
+				}
+				return e9Val{b: v != 0, isBool: true}, nil
+			}
+		}
+	default:
+		if name := x.Atom(e, exprString(e)); name != "" {
+			return x.atomVal(e, env)
+		}
 	}
 	if c, ok := constInt(info, e); ok {
 		return e9Val{i: c}, nil
